@@ -1,3 +1,5 @@
+//go:build go1.25
+
 package core
 
 import (
@@ -32,6 +34,9 @@ type Sched struct {
 	seq     int64
 	deadlk  string
 }
+
+// EngineB is true in the build that runs under the race detector (mode B).
+const EngineB = false
 
 type taskState int
 
@@ -150,11 +155,6 @@ func (s *Sched) finish(t *Task) {
 	}
 	s.mu.Unlock()
 	s.doKick()
-}
-
-type taskPanic struct {
-	val any
-	pcs []uintptr
 }
 
 func (s *Sched) abort(v *Violation) {
